@@ -150,7 +150,38 @@ func c06Run(env *core.Env, idx int) core.CaseResult {
 		typed, source = v, "decoded:"+kind
 	} else {
 		b := gen.NewBuilder(rng)
-		switch (idx / 2) % 7 {
+		switch (idx / 2) % 9 {
+		case 7:
+			// a paths object filled directly: path items under names that are not paths (one of them a legal extension name that an
+			// extension of the object also carries), extensions in both letter cases
+			p := &spec.Paths{Paths: map[string]spec.PathItem{}}
+			names := []string{"/pets", "/a\"b", "x-internal", "relative", "X-Upper", "/{id}"}
+			rng.Shuffle(len(names), func(i, j int) { names[i], names[j] = names[j], names[i] })
+			for _, n := range names[:2+rng.Intn(4)] {
+				pi := spec.PathItem{}
+				pi.Get = spec.NewOperation("op" + fmt.Sprint(rng.Intn(100))).RespondsWith(200, spec.NewResponse().WithDescription("ok"))
+				p.Paths[n] = pi
+				b.Calls = append(b.Calls, fmt.Sprintf("Paths.Paths[%q] = PathItem{Get: …}", n))
+			}
+			for _, e := range []string{"x-internal", "X-Upper", "x-other"}[:1+rng.Intn(3)] {
+				p.AddExtension(e, rng.Intn(2) == 0)
+				b.Calls = append(b.Calls, fmt.Sprintf("Paths.AddExtension(%q, bool)", e))
+			}
+			typed, source = p, "builder:paths"
+		case 8:
+			// a responses object filled directly: status codes that are not HTTP codes next to a default response
+			r := &spec.Responses{}
+			r.StatusCodeResponses = map[int]spec.Response{}
+			for _, c := range []int{0, 7, 200, 404, 999, 1000, -1}[rng.Intn(3):][:2+rng.Intn(3)] {
+				r.StatusCodeResponses[c] = *spec.NewResponse().WithDescription(fmt.Sprintf("code %d", c))
+				b.Calls = append(b.Calls, fmt.Sprintf("Responses.StatusCodeResponses[%d] = …", c))
+			}
+			if rng.Intn(2) == 0 {
+				r.Default = spec.NewResponse().WithDescription("the default response")
+				b.Calls = append(b.Calls, "Responses.Default = …")
+			}
+			r.AddExtension("x-200", "an extension")
+			typed, source = r, "builder:responses"
 		case 0, 1:
 			typed, expected = b.Schema(2+rng.Intn(2), true)
 			source = "builder:schema"
@@ -310,7 +341,7 @@ func init() {
 		Run:      c06Run,
 		Floors: func(env *core.Env) []string {
 			return []string{"source.builder:schema", "source.builder:operation", "source.builder:response", "source.builder:securityScheme", "source.builder:parameter",
-				"source.builder:header", "source.decoded:swagger", "source.decoded:schema", "order-checked", "names-compared", "with-hostile-name-or-x-order", "ordered-items-sequence"}
+				"source.builder:header", "source.builder:paths", "source.builder:responses", "source.decoded:swagger", "source.decoded:schema", "order-checked", "names-compared", "with-hostile-name-or-x-order", "ordered-items-sequence"}
 		},
 		Assumptions: []string{
 			"an encoding error is accepted (the statement allows it) provided it is not intermittent",
